@@ -101,17 +101,20 @@ RunTxs(g0, en, txs) ==
 ObsCtr(list) == [k \in {<<x.kind, x.s, x.d>> : x \in ToSet(list)} |-> (CHOOSE x \in ToSet(list) : <<x.kind, x.s, x.d>> = k).n]
 CtrViol(g2, list, unord) ==
   LET o == ObsCtr(list)
-      pairs == DOMAIN g2.acc \cup DOMAIN g2.rcp \cup {<<k[2], k[3]>> : k \in {x \in DOMAIN o : x[1] \in {"ic", "rc"}}}
+      pairs == DOMAIN g2.acc \cup DOMAIN g2.rcp \cup {<<k[2], k[3]>> : k \in {x \in DOMAIN o : x[1] \in {"ic", "rc", "bin"}}}
                 \cup {<<k[3], k[2]>> : k \in {x \in DOMAIN o : x[1] \in {"sic", "src"}}}
       bad == {p \in pairs : \/ Get(o, <<"ic", p[1], p[2]>>, 0) # Get(g2.acc, p, 0)
                             \* (C02 speaks of ordered pairs: an unordered destination records the last index, not the count)
                             \* (nor is there a destination-side record when the destination is the hub's own broker)
                             \/ (p[2] \notin unord /\ p \notin g2.hub /\ Get(o, <<"sic", p[2], p[1]>>, 0) # Get(g2.acc, p, 0))
+                            \* a request to a service of the hub itself is counted by the hub's broker instead (InCounter)
+                            \/ Get(o, <<"bin", p[1], p[2]>>, 0) # (IF p \in g2.hub THEN Get(g2.acc, p, 0) ELSE 0)
                             \/ Get(o, <<"rc", p[1], p[2]>>, 0) # Get(g2.rcp, p, 0)
                             \/ Get(o, <<"src", p[2], p[1]>>, 0) # Get(g2.rcp, p, 0)}
   IN {<<"C02_CountersEqualHistory", [pair |-> p, acc |-> Get(g2.acc, p, 0), rcp |-> Get(g2.rcp, p, 0),
                                      ic |-> Get(o, <<"ic", p[1], p[2]>>, 0), sic |-> Get(o, <<"sic", p[2], p[1]>>, 0),
-                                     rc |-> Get(o, <<"rc", p[1], p[2]>>, 0), src |-> Get(o, <<"src", p[2], p[1]>>, 0)]>> : p \in bad}
+                                     rc |-> Get(o, <<"rc", p[1], p[2]>>, 0), src |-> Get(o, <<"src", p[2], p[1]>>, 0),
+                                     bin |-> Get(o, <<"bin", p[1], p[2]>>, 0)]>> : p \in bad}
 
 StatusViol(g1, g2, h, list) ==
   LET expired == ExpiredIds(g1, h)
